@@ -46,7 +46,7 @@ CLAIMED = {
          'independent canonical-form oracle.',
     note='Trusted: Coq kernel, vm_compute, harness (graph encoder impl_graph.py, canonical form), jaxcompat. Containers (list/tuple/dict) have value semantics in model and code: a container '
          'shared by two attributes is duplicated (known finding F9). pop leaves aliases of a popped Variable in place (known finding F19), so "removes exactly the selected Variables" is '
-         'proved only as: nothing else is removed and everything returned was selected. clone and "g is left untouched" are oracle-checked (the model is purely functional). No axioms.',
+         'proved only as: nothing else is removed and everything returned was selected. clone, "g is left untouched", a second merge of the same states after in-place edits of the first copy and Variables with value hooks (update / split / merge move raw values) are oracle-checked (the model is purely functional). No axioms.',
     technique='Coq proof (joint flatten/unflatten invariant by fuel induction, termination by an unvisited-weight measure, partition and sorting lemmas) + per-run model-vs-implementation correspondence by vm_compute',
     ref='DESIGN.md section 5, C03'),
   'C04': dict(
@@ -76,7 +76,7 @@ CLAIMED = {
          'run is compared in Coq with Model/Linen.v on the plain equivalent (transformed class names, control flow resolved) and, on the real code, with the program run as plain Python; flax.core.lift.cond / switch / while_loop on real Scopes (flax.core.apply) with random filters, mutability and statement-language bodies, well-formed and not, compared with Model/LiftCtl.v (result, updated collections, whether it raises) and with plain Python control flow.',
     note='Trusted: Coq kernel, vm_compute, harness (plain_equivalent desugaring), jaxcompat, jax.jit / checkpoint / lax control flow. NOT proved: that jax.jit / jax.checkpoint / lax control flow evaluate the traced function like Python '
          '(needs a semantics of tracing: the model states what tracing makes visible - all branches run, condition and body run once - and the correspondence ties that to the code); rng handling of the control-flow lifts (make_loop_rngs) is not modelled. Keys drawn inside a jitted child are not compared (nn.jit forks RNGs: C09). In the module-program families branch bodies only set declared variables and keep '
-         'shapes, every branch writes the same variables and trip counts are >= 1; the functional-core family (Model/LiftCtl.v) also runs branches / bodies that differ in structure, write immutable collections, read missing variables and loops with zero trips. named_call, static/donate argnums, custom map_variables functions not covered. No axioms.',
+         'shapes, every branch writes the same variables and trip counts are >= 1; the functional-core family (Model/LiftCtl.v) also runs branches / bodies that differ in structure, write immutable collections, read missing variables and loops with zero trips. Lifted helper methods / branch functions that create auto-named sub-modules (identity map_variables(init=True), cond / switch with a layer per branch) are an oracle family. named_call, static/donate argnums, custom map_variables functions not covered. No axioms.',
     technique='Coq proof (filter-partition lemmas over lift.pack; sub-tree simulation and path frame over the Linen interpreter; loop simulation lifted while = Python loop by induction on the trip count) + per-run model-vs-implementation correspondence by vm_compute + lifted-vs-plain oracle on the real code',
     ref='DESIGN.md section 5, C05'),
   'C06': dict(
@@ -130,7 +130,7 @@ CLAIMED = {
          'stream -> default; reseed restarts. Tied to /repo per run: every observed key is decoded by an independent recomputation (hashlib.sha1 + jax.random) into an address / key term and the '
          'sequences are compared with the model in Coq, under both settings of flax_fix_rng_separator; sibling modules / child scopes passed as arguments into nn.jit (method and class), nn.fold_rngs and the core lift.jit, '
          'NNX streams under ToLinen, keys under nn.jit over several applies.',
-    note='ASSUMPTION (not proved): idealised PRNG - fold_in/split/key injective, SHA-1[:4] injective on the hashed strings. Trusted: Coq kernel, vm_compute, harness, jaxcompat, jax.random, '
+    note='ASSUMPTION (not proved): idealised PRNG - fold_in/split/key injective, SHA-1[:4] injective on the hashed strings. Keys under nn.jit (against the same program under jax.disable_jit()) and in branches of nn.cond / nn.switch that draw different numbers of keys are oracle families. Trusted: Coq kernel, vm_compute, harness, jaxcompat, jax.random, '
          'hashlib. split(k, n)[i] is independent of n (observed) and the key terms record i only. Known finding F8. No axioms.',
     technique='Coq proof (trace invariants over the interpreter and over stream histories) + per-run correspondence by decoding observed keys, vm_compute',
     ref='DESIGN.md section 5, C09'),
@@ -155,7 +155,7 @@ CLAIMED = {
          'stays complete and is the previous latest or the new one, for whole histories of saves and crashes; temporaries are never listed; latest is the numeric maximum; an existing '
          'step is rejected with the directory unchanged; the legacy back-end rejects older steps; retention never touches the newest step. Orbax+overwrite of the latest is refuted '
          '(F14). Tied to /repo per run: save histories with injected crashes on both back-ends; directory snapshots, outcomes, operation kinds, latest and restore compared in Coq.',
-    note='Trusted: Coq kernel, vm_compute, harness (crash injection by interposing flax.io/os/shutil), jaxcompat, orbax, TF gfile. Modelled: rename/remove atomic, rmtree two-step, '
+    note='Trusted: Coq kernel, vm_compute, harness (crash injection by interposing flax.io/os/shutil), jaxcompat, orbax, TF gfile. Restore with a target (sequences of 1-23 entries, namedtuple) and a back-end that changes in the middle of a run are oracle probes on both back-ends. Modelled: rename/remove atomic, rmtree two-step, '
          'Orbax save = mkdir tmp + write + rename (validated against traced operation kinds each run). Real durability (fsync, power loss, GCS) not exhibited. Steps are scaled to '
          'integers per history. Known findings F3, F14; F15 fixed. No axioms.',
     technique='Coq proof (invariants over prefixes of atomic-operation lists and over histories; sorting lemmas) + per-run crash-injection correspondence by vm_compute',
@@ -243,7 +243,7 @@ CLAIMED = {
          'state of a ToNNX wrapper after a call is the old state overwritten by the updates. Tied to /repo per run: ToNNX around random Linen module programs (lazy_init and 1-3 calls with '
          'mutable sets) compared with Model/Linen.v\'s apply on the variables the wrapper holds plus the bridge model, and with the real Module.apply; ToLinen around NNX modules compared with '
          'the NNX module called with the same state and with Model/NnxLift.v\'s body semantics.',
-    note='Trusted: Coq kernel, vm_compute, harness, jaxcompat. NOT proved: that the wrappers return the wrapped module\'s output (they call the module; decided per run). Known findings: F11 (one '
+    note='Trusted: Coq kernel, vm_compute, harness, jaxcompat. NOT proved: that the wrappers return the wrapped module\'s output (they call the module; decided per run, incl. sow(reduce_fn) call histories through ToNNX, ToLinen(skip_rng=True) around a module that owns RNG streams, and partition specs under logical axis rule contexts). Known findings: F11 (one '
          'name in two collections is lost), F24 (sown tuple collections break ToNNX); F23 (nested parameters dropped by the shallow merge) found while building this check and fixed. '
          'ToLinen.init stores the state the NNX module has when constructed (updates made by the first call are not stored): mirrored. Sharding metadata boxes (Partitioned/NNXMeta) are not '
          'generated. No axioms.',
@@ -275,8 +275,8 @@ CLAIMED = {
 NOTE_UPDATES = [
   ("Sharding metadata boxes (Partitioned/NNXMeta) are not generated.", "Sharding metadata (Partitioned / LogicallyPartitioned boxes with names, rules and an explicit mesh) through ToNNX and back is checked by oracle only (F32 found there and fixed)."),
   ("split_rngs patterns, in_axes prefixes over nested containers, pmap not covered.", "split_rngs + vmap call histories are checked by oracle only; shared Variables under two DiffState filters, bare Variables and tied weights under path-based StateAxes are also rows of Model/Alias.v (F30 found there and fixed); a layout probe (position-weighted sums inside scan bodies) ties the moveaxis arithmetic to the Python loop; in_axes prefixes over nested containers, pmap not covered."),
-  ("Not in the program grammar: setup-style modules, bind/unbind, lists of submodules, share_scope.", "Not in the program grammar: setup-style modules, lists of submodules, share_scope; bind / unbind and module instances shared between parents are checked by an oracle family on instance graphs, not by the model."),
-  ("in_axes/out_axes prefix trees over containers not generated.", "In(axis) / Out(axis) markers and bound sub-modules passed through dataclass fields are checked by oracle only; in_axes/out_axes prefix trees over containers not generated."),
+  ("Not in the program grammar: setup-style modules, bind/unbind, lists of submodules, share_scope.", "Not in the program grammar: setup-style modules, lists of submodules; share_scope (side by side without a clash, an error with one) and Module.copy() are oracle families; bind / unbind and module instances shared between parents are checked by an oracle family on instance graphs, not by the model."),
+  ("in_axes/out_axes prefix trees over containers not generated.", "In(axis) / Out(axis) markers: Model/Lift.v split_in_out is compared per run with lift._split_in_out_axes (the ordered in / out filter lists) and call histories are checked by oracle; bound sub-modules passed through dataclass fields are checked by oracle only; in_axes/out_axes prefix trees over containers not generated."),
   ("Keys drawn inside a jitted child are not compared (nn.jit forks RNGs: C09).", "Keys drawn inside a jitted child are not compared (nn.jit forks RNGs: C09). Lifted helper methods over setup-defined sub-modules (counters 1-3 levels down) and nn.jit helper methods are oracle families, not in the model's grammar."),
 ]
 def upd_note(n):
